@@ -182,3 +182,65 @@ Proof.
             (fun p => delta_dec_fn (snd p)) ps m0 _ AP sched).
   intros p _ bs _. apply delta_dec_fn_bound.
 Qed.
+
+(* ---------------- varintFOREncode(dst, values, count, NULL) ----------------
+   the call analyses the values itself: the size depends on what it reads, so
+   the window is the worst case of varintFORSize over count 64-bit values,
+   9 + 1 + 9 + 8 * count (tagged varints take at most 9 bytes, offsets at most
+   8): C03_for_size_exact with width <= 8 *)
+Definition for_enc_auto_fn (vs : list N) : list N * list N :=
+  match for_encode (map u64 vs) None with
+  | Some (bs, _) => (bs, [1; N.of_nat (length bs)])
+  | None => ([], [0])
+  end.
+
+Lemma for_enc_auto_fn_bound vs :
+  vs <> [] -> N.of_nat (length vs) < 1152921504606846976 ->
+  (length (fst (for_enc_auto_fn vs)) <= 19 + 8 * length vs)%nat.
+Proof.
+  intros Hne Hn. unfold for_enc_auto_fn.
+  destruct (for_encode (map u64 vs) None) as [[bs m']|] eqn:E; cbn [fst length]; [|lia].
+  assert (Hne' : map u64 vs <> []) by (destruct vs; [contradiction|discriminate]).
+  destruct (for_size_exact (map u64 vs) None bs m' Hne' (map_u64_ok vs)) as (m & Ha & S & _).
+  - rewrite map_length. exact Hn.
+  - left. reflexivity.
+  - exact E.
+  - destruct (for_analyze_spec (map u64 vs) Hne' (map_u64_ok vs)) as (m2 & Ha2 & _ & Hmax & Hrng & Hr & Hc & Hw & _ & Hlt).
+    rewrite Ha in Ha2. injection Ha2 as <-. rewrite map_length in Hc.
+    assert (R : fm_range m < 18446744073709551616).
+    { rewrite Hr. lia. }
+    destruct (ext_width_bounds (fm_range m) R) as (W & _).
+    unfold for_size, for_size_of in S. rewrite Hc, Hw in S.
+    pose proof (TaggedSpecProofs.tagged_len_range (fm_min m)).
+    pose proof (TaggedSpecProofs.tagged_len_range (N.of_nat (length vs))).
+    assert (M : mul64 (N.of_nat (length vs)) (N.of_nat (ext_width (fm_range m)))
+                <= N.of_nat (length vs) * N.of_nat (ext_width (fm_range m))).
+    { unfold mul64. apply N.mod_le. lia. }
+    assert (U : N.of_nat (length bs) <= tagged_len (fm_min m) + 1 + tagged_len (N.of_nat (length vs))
+                  + mul64 (N.of_nat (length vs)) (N.of_nat (ext_width (fm_range m)))).
+    { rewrite <- S. unfold u64. apply N.mod_le. lia. }
+    nia.
+Qed.
+
+Theorem for_encode_auto_threads_safe (ps : list io) (m0 : mem) :
+  (forall p, In p ps -> io_n p <> 0%nat /\ N.of_nat (io_n p) < 1152921504606846976) ->
+  (forall i j pi pj, i <> j -> nth_error ps i = Some pi -> nth_error ps j = Some pj ->
+     forall l, in_range (io_dst pj) (19 + 8 * io_n pj) l ->
+       ~ in_range (io_dst pi) (19 + 8 * io_n pi) l /\ ~ in_range (io_src pi) (io_n pi) l) ->
+  forall sched,
+  let ths := map (fun p => prog1 (io_src p) (io_n p) (io_dst p) for_enc_auto_fn) ps in
+  ~ races (snd (crun sched (m0, ths))) /\
+  forall i p r, nth_error ps i = Some p ->
+    nth_error (snd (crun sched (m0, ths))) i = Some (Ret r) ->
+    let res := for_enc_auto_fn (peek m0 (io_src p) (io_n p)) in
+    r = snd res /\
+    forall j, (j < length (fst res))%nat ->
+      fst (crun sched (m0, ths)) (io_dst p + N.of_nat j) = nth j (fst res) 0.
+Proof.
+  intros V AP sched.
+  refine (family1_safe io io_src io_n io_dst (fun p => (19 + 8 * io_n p)%nat)
+            (fun _ => for_enc_auto_fn) ps m0 _ AP sched).
+  intros p Hp bs Hl. destruct (V p Hp) as [V1 V2]. rewrite <- Hl.
+  apply for_enc_auto_fn_bound; rewrite ?Hl; [|exact V2].
+  intros ->. cbn [length] in Hl. congruence.
+Qed.
